@@ -541,7 +541,7 @@ class Check:
 
 
 def gen_stream01(rng, n, kind=None):
-    kind = kind or rng.choice(["const0", "const1", "bern", "shift", "shift", "alt", "burst"])
+    kind = kind or rng.choice(["const0", "const1", "bern", "shift", "shift", "alt", "burst", "three"])
     if kind == "const0":
         return [0] * n
     if kind == "const1":
@@ -553,6 +553,12 @@ def gen_stream01(rng, n, kind=None):
         k = rng.randrange(1, max(2, n))
         p, q = rng.choice([(0.05, 0.6), (0.2, 0.9), (0.7, 0.1), (0.0, 1.0), (0.3, 0.5)])
         return [int(rng.random() < (p if i < k else q)) for i in range(n)]
+    if kind == "three":
+        # a short burst, a long stretch of the other level, then the first level again (rise AND fall evidence at once)
+        a = rng.randrange(1, max(2, min(8, n // 4 + 1)))
+        c = rng.randrange(1, max(2, n // 3))
+        hi = rng.choice([0, 1])
+        return ([hi] * a + [1 - hi] * max(0, n - a - c) + [hi] * c)[:n]
     if kind == "alt":
         return [(i // rng.choice([1, 2, 3])) % 2 for i in range(n)]
     k = rng.randrange(0, max(1, n))
